@@ -52,7 +52,7 @@ namespace PhQ {
 
 /// \brief Constitutive model for an elastic isotropic solid. This is the simplest constitutive
 /// model for a deformable solid material.
-template <typename NumericType = double>
+template <typename NumericType>
 class ConstitutiveModel::ElasticIsotropicSolid : public ConstitutiveModel {
 public:
   /// \brief Default constructor. Constructs an elastic isotropic solid constitutive model with an
